@@ -2,6 +2,7 @@ package curves
 
 import (
 	"github.com/markusressel/fan2go/internal/configuration"
+	"github.com/markusressel/fan2go/internal/simhook"
 	"github.com/markusressel/fan2go/internal/ui"
 	"math"
 )
@@ -30,6 +31,7 @@ func (c *FunctionSpeedCurve) Evaluate() (value int, err error) {
 		//  The only way to fix this that comes to mind is to update the value of each curve in a separate
 		//  goroutine that runs independently and only retrieve its current value in the fan controller.
 		//  This might cause additional race-conditions though.
+		simhook.Yield("curve.member", c.Config.ID)
 		v, err := curve.Evaluate()
 		if err != nil {
 			return 0, err
